@@ -664,7 +664,15 @@ pub fn check_output(model: &Model, bytes: &[u8]) -> Result<Vec<Mismatch>, String
                     let mode = origin.split('[').next().unwrap_or("");
                     if e.ins == act_body[k].ins {
                         let (kind, site) = ref_site(&exp_body[k].0);
-                        let site = if mode == "orig" { site } else { format!("{site}(injected)") };
+                        // references inside the body of a function the builder produced are part of "appears
+                        // exactly as built" (C12) as well
+                        let site = if mode != "orig" {
+                            format!("{site}(injected)")
+                        } else if l.built {
+                            format!("{site}(built)")
+                        } else {
+                            site
+                        };
                         mm.push(Mismatch::new(
                             kind,
                             &site,
